@@ -108,6 +108,7 @@ pub fn run_extra(kind: &str, l: &[Sx]) -> String {
         "serscript" => serscript_case(l),
         "respell" => respell_case(l),
         "fnhist" => fnhist_case(l),
+        "wide" => wide_case(l),
         "datefmt" => crate::oracles::datefmt_case(l),
         "rtext" => rtext_case(l),
         "re" => crate::oracles::re_case(l),
@@ -698,7 +699,9 @@ fn fnhist_case(l: &[Sx]) -> String {
             let a = next() % arities.len();
             let p = next() % 2 == 0;
             let decl = format!("{}()", n);
-            env.add_function(if p { Function::new(fns[t], arities[a], &decl) } else { Function::impure(fns[t], arities[a], &decl) });
+            let f = if p { Function::new(fns[t], arities[a], &decl) } else { Function::impure(fns[t], arities[a], &decl) };
+            // single and bulk registration must key the entry alike
+            if next() % 3 == 0 { env.add_functions(vec![f]); } else { env.add_function(f); }
             reference.insert(n.to_lowercase(), (n.to_string(), t, a, p));
         }
         for q in names {
@@ -733,4 +736,52 @@ fn fnhist_case(l: &[Sx]) -> String {
         }
     }
     format!("R=steps:{} ## refmap={} first={}", steps, if ok { "holds" } else { "FAILS" }, if first_bad.is_empty() { "-".to_string() } else { first_bad.replace(' ', "_") })
+}
+
+// C08 (oracle only): very WIDE nodes at small depth - an array literal / Array node / call with n members - built here (no giant input line) and pushed through
+// execute, optimize, both validators, serde, == and the value comparisons on a thread with a small stack (256 KiB): none of these may need stack proportional
+// to the WIDTH of a node (an overflow aborts the process: CRASH).  (wide id n)
+fn wide_case(l: &[Sx]) -> String {
+    let n: usize = atom(&l[2]).parse().unwrap();
+    let h = std::thread::Builder::new().stack_size(256 * 1024).spawn(move || {
+        let mut env = StaticEnvironment::default();
+        slac::stdlib::extend_environment(&mut env);
+        let nums: Vec<Value> = (0..n).map(|i| Value::Number((i % 7) as f64)).collect();
+        let lit = Expression::Literal { value: Value::Array(nums.clone()) };
+        let node = Expression::Array { expressions: nums.iter().map(|v| Expression::Literal { value: v.clone() }).collect() };
+        let call = Expression::Call { name: "max".into(), params: nums.iter().map(|v| Expression::Literal { value: v.clone() }).collect() };
+        let nested = Expression::Literal { value: Value::Array(vec![Value::Array(nums.clone()), Value::Array(nums.clone())]) };
+        let mut done = 0usize;
+        for op in [Operator::Equal, Operator::NotEqual, Operator::Less, Operator::Plus] {
+            for (a, b) in [(&lit, &lit), (&lit, &node), (&node, &lit), (&nested, &nested)] {
+                let e = Expression::Binary { left: Box::new(a.clone()), right: Box::new(b.clone()), operator: op };
+                let _ = execute(&env, &e);
+                let _ = check_variables_and_functions(&env, &e);
+                let _ = check_boolean_result(&e);
+                let mut o = e.clone();
+                let _ = optimize(&env, &mut o);
+                let _ = o == e;
+                if n <= 20000 {
+                    if let Ok(j) = serde_json::to_value(&e) {
+                        let _ = serde_json::from_value::<Expression>(j);
+                    }
+                }
+                done += 1;
+            }
+        }
+        for name in ["unique", "sort", "contains", "find", "count", "reverse", "length", "str", "min", "all"] {
+            let args = if name == "contains" || name == "find" || name == "count" { vec![Value::Array(vec![Value::Array(nums.clone()), Value::Array(nums.clone())]), Value::Array(nums.clone())] } else { vec![Value::Array(nums.clone())] };
+            let _ = crate::oracles::call(name, &args);
+            done += 1;
+        }
+        let mut o = call.clone();
+        let _ = execute(&env, &call);
+        let _ = optimize(&env, &mut o);
+        let _ = call == o;
+        done
+    });
+    match h.unwrap().join() {
+        Ok(d) => format!("R=done:{} ## total=holds", d),
+        Err(_) => "R=panic ## total=FAILS".to_string(),
+    }
 }
